@@ -60,6 +60,12 @@ Definition raw_private_op (k : rsa_priv) (b : blind) (m : Z) : Z * blind :=
   let c := raw_private_helper k m' in
   ((c * bl_unblinder b) mod n, blind_update k b).
 
+(* the same computation with the blinder and the unblinder given separately: what a thread computes
+   when the two attribute reads are NOT one atomic step (another thread may update the pair in between) *)
+Definition raw_private_op_torn (k : rsa_priv) (bl ub : Z) (m : Z) : Z :=
+  let n := rk_n k in
+  (raw_private_helper k ((m * bl) mod n) * ub) mod n.
+
 (* a sequence of private operations threading the blinding state *)
 Fixpoint raw_private_ops (k : rsa_priv) (b : blind) (ms : list Z) : list Z * blind :=
   match ms with
